@@ -85,6 +85,7 @@ k("c07_transform_frame", "transform::Transform::make_args + Input::prepare_input
 for _o in ("ok", "notfound", "denied", "other"):
     k("c15_hash_file_" + _o, "hasher::FileHasher::hash_file_or_log_err", module="hasher", t=300)
     k("c15_hash_transformed_" + _o, "hasher::FileHasher::hash_transformed_or_log_err", module="hasher", t=300)
+k("c12_cache_identity", "hasher::FileHasher::new_cached", module="hasher", t=600)
 k("c12_hasher_flow", "hasher::FileHasher::hash_file + load_hash + store_hash + cache::HashCache::key", module="hasher", t=900)
 
 for _w in ("remove", "unsafe_rename", "hardlink", "symlink", "unsafe_copy", "mkdirs", "check_can_rename"):
@@ -179,7 +180,7 @@ PROPS = {
         design_ref="DESIGN.md §5 C07",
     ),
     "C12": dict(
-        kani=["c12_hasher_flow"],
+        kani=["c12_hasher_flow", "c12_cache_identity"],
         verus=["cache_get_guard"],
         prefixes=["C12."],
         category="proof",
